@@ -1144,7 +1144,7 @@ package psatoken
 // Audits whose oracle is the literal statement where the codecs / the crypto are more lenient than it; each
 // failing case is named (CASE ids), so the known findings recorded for them do not hide a new one.
 //@ bounded[C04] strict-cbor : 2 controls and 9 tokens from the independent writer: a byte-string claim as an array of 32 integers, an integer claim as a simple value, a mandatory claim only under a text key or under the unsigned key 2^64-75001, a profile-2 token with an integer under key -75000, a conformant token of either profile plus an unknown integer key outside the int64 range :: boundedStrictCBOR()
-//@ bounded[C09,C03] strict-reencode : 3 tokens with a tagged null under a byte-string claim and one with profile 2's name under key -75000 (decode, re-encode, decode again: same getter results); a valid claims-set of either profile whose VSI is not valid UTF-8 (its own encoding must decode) :: boundedStrictReencode()
+//@ bounded[C09,C03] strict-reencode : 3 tokens with a tagged null under a byte-string claim and one with profile 2's name under key -75000 (decode, re-encode, decode again: same getter results); a valid claims-set of either profile whose VSI is not valid UTF-8 (its own encoding must decode); a valid no-measurements claims-set of the extension profile derived from profile 1 (encode, decode, encode: identical bytes) :: boundedStrictReencode()
 //@ bounded[C02] strict-signature : ES256 and ES384 tokens with the signature (r, s) replaced by the different bytes (r, n-s) :: boundedStrictSignature()
 //@ bounded[C02,C03] tamper : 5 pairs of ES256 tokens over the valid claims-sets: every single-bit flip, every truncation, payload / signature / protected-header splices between two tokens, arbitrary signature bytes, the other key; thorough tier: 48 ES256, 4 ES384, 4 ES512, 4 EdDSA and 2 PS256 token pairs :: boundedTamper()
 //@ bounded[C20] envelope : envelopes from an independent CBOR writer: tags 0..30 and none, array lengths 0..6, each of the four elements replaced by 8 other item types, wrapped / null / array / empty / integer payloads, trailing bytes :: boundedEnvelope()
